@@ -57,7 +57,13 @@ MCHeaderPool == <<
     H(<<82, 101, 102, 101, 114, 101, 114>>, <<47, 102, 114, 111, 109>>),                                                \* Referer: /from
     H(<<117, 115, 101, 114, 45, 97, 103, 101, 110, 116>>, <<117, 98>>),                                                 \* user-agent: ub   (a second User-Agent)
     H(<<88, 45, 70, 111, 114, 119, 97, 114, 100, 101, 100, 45, 80, 114, 111, 116, 111>>, <<72, 84, 84, 80, 83>>),       \* X-Forwarded-Proto: HTTPS
-    H(<<88, 45, 69, 109, 112, 116, 121>>, <<>>)                                                                         \* X-Empty:
+    H(<<88, 45, 69, 109, 112, 116, 121>>, <<>>),                                                                        \* X-Empty:
+    \* obs-text (bytes >= 0x80) in the fields behind the typed properties auth, referer, if_range, expect, user_agent
+    H(<<65, 117, 116, 104, 111, 114, 105, 122, 97, 116, 105, 111, 110>>, <<66, 101, 97, 114, 101, 114, 32, 99, 97, 102, 195, 169>>),   \* Authorization: Bearer caf<C3><A9>   (a valid UTF-8 pair)
+    H(<<114, 101, 102, 101, 114, 101, 114>>, <<47, 102, 114, 233>>),   \* referer: /fr<E9>                     (a lone Latin-1 byte; second Referer if /from is there)
+    H(<<73, 102, 45, 82, 97, 110, 103, 101>>, <<34, 233, 116, 195, 169, 34>>),   \* If-Range: "<E9>t<C3><A9>"
+    H(<<69, 120, 112, 101, 99, 116>>, <<49, 48, 48, 45, 99, 111, 110, 116, 105, 110, 117, 233>>),   \* Expect: 100-continu<E9>
+    H(<<85, 83, 69, 82, 45, 65, 71, 69, 78, 84>>, <<97, 103, 233, 110, 116>>)    \* USER-AGENT: ag<E9>nt                 (a second User-Agent when the request already has one)
 >>
 UnderscoreHeader == H(<<88, 95, 70, 111, 111>>, <<99>>)                 \* X_Foo: c   (only with UnderscoreNames)
 
@@ -183,7 +189,8 @@ SetForwarding(f) ==
     /\ stage' = "send" /\ UNCHANGED app
 Send == stage = "send" /\ stage' = "sent" /\ UNCHANGED <<r, app>>
 
-PlainParams  == [status : Statuses, text : Tri, data : Tri, media : Tri, stream : BOOLEAN, ctype : BOOLEAN]
+PlainParams  == {p \in [status : Statuses, text : Tri, data : Tri, media : Tri, stream : BOOLEAN, ctype : BOOLEAN, script : Scripts] :
+                    p.script = "early-mutate" => p.media # "unset"}
 XSetClass    == \E c \in {"script"} \cup (IF PlainShare > 0 THEN {"plain"} ELSE {}) : SetClass(c)
 XStart       == \E m \in Methods, u \in 1..4, o \in 1..NOptions : Start(m, u > 1, o)            \* 3 in 4 carry a User-Agent
 XSetResponder == \/ \E k \in Kinds : SetResponder(k, NoPlain)
